@@ -93,6 +93,7 @@ def read_exprs(pydsdl, rec, workdir, texts):
     d.mkdir(parents=True)
     body = HEADER + "".join("@print %s\n" % t for t in texts) + "@sealed\n"
     (d / "E.1.0.dsdl").write_text(body, encoding="utf-8")
+    (d / "Dep.1.0.dsdl").write_text(GE.DEP_TEXT, encoding="utf-8")
     rec.seen.clear()
     printed = []
     try:
@@ -198,10 +199,11 @@ def in_type_position(ctx, pydsdl, rng, workdir):
     d.mkdir(parents=True)
     body = HEADER + "uint8[<=%s] a\nuint8[%s] b\nuint16 C = %s\n@extent 8 * (%s) + 160000\n" % (text, text, text, text)
     (d / "E.1.0.dsdl").write_text(body, encoding="utf-8")
+    (d / "Dep.1.0.dsdl").write_text(GE.DEP_TEXT, encoding="utf-8")
     case = {"tree": t, "text": text, "kind": "type-position"}
     ctx.mon("in-type-position")
     try:
-        m = pydsdl.read_namespace(d, [])[0]
+        m = [x for x in pydsdl.read_namespace(d, []) if x.short_name == "E"][0]
         got = (m.fields[0].data_type.capacity, m.fields[1].data_type.capacity, m.constants[-1].value.native_value, m.extent)
         exp = (ref, ref, Fraction(ref), 8 * ref + 160000)
         if got != exp:
